@@ -47,6 +47,7 @@ From Ark Require Import Model.Base Model.Mask Model.Pool Model.Util Model.World 
 From Ark Require Import Proofs.WF Proofs.StorageA Proofs.StorageBDefs Proofs.StorageB_sb2 Proofs.ViewProofs Proofs.CacheProofs Proofs.BatchProofs Proofs.BatchOps Proofs.StorageD Properties.Common.
 From Ark Require Import Proofs.Rel2Defs Proofs.Rel2Maint Proofs.Rel2Hist Proofs.Rel2Cache Proofs.Rel2Batch Proofs.Rel2BatchNew Proofs.Rel2BatchExchange Proofs.Rel2BatchSetRel Proofs.Rel2BatchHist.
 From Ark Require Import Proofs.Rel2HistQ Proofs.Rel2HistQL Proofs.Rel2HistR Proofs.Rel2HistAll Proofs.Rel2HistAllL Proofs.Rel2HistAllR.
+From Ark Require Import Proofs.ObsErase Proofs.Rel2HistO Proofs.Rel2HistAllO Proofs.ObsEraseBatch Proofs.Rel2HistAllO2 Proofs.Rel2HistAllOR Proofs.Rel2HistAllOR2.
 
 Theorem C06_table_move_is_per_entity_exchange : forall s otid ntid ot nt oa na, St s -> otid <> ntid ->
   nth_error (w_tables s) otid = Some ot -> nth_error (w_tables s) ntid = Some nt ->
@@ -481,7 +482,35 @@ Theorem C06_rel_lock_bookkeeping_after_every_history_merged :
          r2h_total lines + 4 < 2 ^ 31 -> InvAll (exec c lines) (r2h_total lines) /\ LQ (exec c lines).
 Proof. exact reachable_inv_all_LQ. Qed.
 
-Definition C06_all := (C06_rel_lock_bookkeeping_after_every_history_merged, C06_rel_batch_step_locked_or_unlocked, C06_rel_invariant_after_every_history_merged, C06_rel_batch_step_after_resets, C06_rel_invariant_after_every_history_merged_with_resets,
+(** Package U2: batch operations WITH registered observers. [oeb_step_all] (ObsEraseBatch): for each of the five batch
+    operations on an unlocked world, the storage after the real step is the storage after the step of the erased world, or (a
+    callback failed after the last storage change) the storage the erased operation ends in, or a named cut state of the
+    erased run ([oeb_cut]). [step_inv_allO_batch]: the invariant is kept in every case - no condition on the observers. *)
+Theorem C06_rel_batch_step_with_observers_simulates_erased :
+  forall (debug wd : bool) (s : W) (line : list Z) (o : op),
+         decode_op line = Some o -> r2h_batch_op o = true -> is_locked s = false ->
+         let s' := fst (step debug wd s line) in
+         let t0 := RecordSet.set w_log (fun _ : list (list Z) => []) (oe_E s) in
+         let r := step_op debug o t0 in
+         oe_E s' = oe_E (fst (step debug wd (oe_E s) line)) \/ oe_E s' = oe_E (state_of r) \/ oeb_cut o t0 (oe_E s').
+Proof. exact oeb_step_all. Qed.
+
+Theorem C06_rel_batch_step_with_observers :
+  forall (debug wd : bool) (s : W) (n : nat) (line : list Z) (o : op),
+         InvAllO s n -> n + r2h_created o + 4 < 2 ^ 31 -> decode_op line = Some o -> r2h_batch_op o = true ->
+         (forall c : nat, In c (r2h_op_ids o) -> c < length (w_reg s)) ->
+         let s' := fst (step debug wd s line) in InvAllO s' (n + S (r2h_created o)) /\ w_reg s' = w_reg s.
+Proof. exact step_inv_allO_batch. Qed.
+
+Theorem C06_rel_batch_step_with_observers_after_resets :
+  forall (debug wd : bool) (s : W) (n k : nat) (line : list Z) (o : op),
+         InvAllOR s n k -> n + r2h_created o + 4 < 2 ^ 31 -> decode_op line = Some o -> r2h_batch_op o = true ->
+         (forall c : nat, In c (r2h_op_ids o) -> c < length (w_reg s)) ->
+         (is_locked s = false -> r2u_foreign_ok k s o) ->
+         let s' := fst (step debug wd s line) in InvAllOR s' (n + S (r2h_created o)) k /\ w_reg s' = w_reg s.
+Proof. exact step_inv_allOR_batch. Qed.
+
+Definition C06_all := (C06_rel_batch_step_with_observers_after_resets, C06_rel_batch_step_with_observers_simulates_erased, C06_rel_batch_step_with_observers, C06_rel_lock_bookkeeping_after_every_history_merged, C06_rel_batch_step_locked_or_unlocked, C06_rel_invariant_after_every_history_merged, C06_rel_batch_step_after_resets, C06_rel_invariant_after_every_history_merged_with_resets,
   C06_rel_remove_entities, C06_rel_remove_entities_both_outcomes, C06_rel_new_batch, C06_rel_exchange_batch, C06_rel_exchange_batch_any_arguments, C06_rel_set_relations_batch, C06_rel_set_relations_batch_both_outcomes, C06_rel_invariant_after_every_history_with_batches, C06_rel_batch_step_any_arguments, C06_selection_exact_after_every_history, C06_table_move_is_per_entity_exchange, C06_destination_mask, C06_single_exchange,
   C06_batch_creation, C06_new_entities, C06_new_entities_needs_a_lock_bit,
   C06_exchange_batch, C06_remove_entities, C06_new_batch, C06_selection_uncached, C06_selection_cached,
